@@ -6,7 +6,7 @@ func VerifC25_range() {
 	if verifThorough() {
 		in = verifBalShape(1, 3, []int{3, 3}, true, true, false)
 	} else {
-		in = verifBalShape(1, 3, []int{3, 1}, false, true, false)
+		in = verifBalShape(1, 3, []int{3, 1}, false, false, false)
 	}
 	if in.nMembers > 1 {
 		in.instance[1] = verifBalPick(2) == 1
@@ -36,7 +36,7 @@ func VerifC25_rangeRacks() {
 	for _, t := range in.order {
 		var rs []string
 		for p := int32(0); p < in.topics[t]; p++ {
-			if verifThorough() || p == 0 {
+			if verifThorough() || (p == 0 && t == "t0") {
 				rs = append(rs, racks[verifBalPick(3)])
 			} else {
 				rs = append(rs, racks[1+verifBalPick(2)])
